@@ -2,7 +2,10 @@
 
 package redisemu
 
-import "sync/atomic"
+import (
+	"sync"
+	"sync/atomic"
+)
 
 // VerifPointFn is the callback type for schedule/crash points (build tag "verif").
 type VerifPointFn func(name string, id int64)
@@ -22,4 +25,18 @@ func verifPoint(name string, id int64) {
 	if p := verifPointFn.Load(); p != nil {
 		(*p)(name, id)
 	}
+}
+
+// wake signals of blocked clients, by signal id: which client owns the signal (the wait table
+// itself only knows signals)
+var verifSignals sync.Map // int -> verifSignalOwner
+
+type verifSignalOwner struct {
+	client int64
+	ws     *wakeSignal
+}
+
+// verifBind records that the wake signal ws belongs to the blocking command of client id.
+func verifBind(ws *wakeSignal, id int64) {
+	verifSignals.Store(ws.id, verifSignalOwner{client: id, ws: ws})
 }
